@@ -147,7 +147,7 @@ def literal_cases():
             ("1_000_000", 1000000), ("99999999999999999999", None), ("-9223372036854775807", -MAX),
             ("-9223372036854775807 - 1", MIN), ("0_0", 0), ("9_223_372_036_854_775_807", MAX),
             ("18446744073709551616", None), ("-9223372036854775808", None), ("5 - 9223372036854775808", None), ("-5 - 9223372036854775808", None),
-            ("36893488147419103232", None), ("18446744073709551617", None), ("100000000000000000000", None), ("-0", 0), ("- 5", -5), ("3 - -4", 7), ("3 -4", -1), ("3 - - 4", 7)]
+            ("00000000000000000042", 42), ("0_000_000_000_000_000_000_009", 9), ("000000000009223372036854775807", 2 ** 63 - 1), ("36893488147419103232", None), ("18446744073709551617", None), ("100000000000000000000", None), ("-0", 0), ("- 5", -5), ("3 - -4", 7), ("3 -4", -1), ("3 - - 4", 7)]
 
 
 def run(rep, tier):
